@@ -18,6 +18,7 @@ Labelled(E(_)) ==
                     /\ E([n |-> "Send", d |-> d, k |-> k, rel |-> rel, kind |-> kind, disp |-> disp,
                           a1 |-> SubSeq(A, 1, n), a2 |-> SubSeq(A, n + 1, Len(A)), resend |-> k \in epSent[d]])
        \/ \E d \in D, rel \in BOOLEAN : Inject(d, rel) /\ E([n |-> "Inject", d |-> d, rel |-> rel])
+       \/ \E d \in D, k \in 1..MaxEp, o \in 1..MaxEp : StartPing(d, k, o) /\ E([n |-> "Ping", d |-> d, k |-> k, oldest |-> o])
        \/ \E dt \in {1, Interval} : Tick(dt) /\ E([n |-> "Tick", dt |-> dt])
 
 P(act) == /\ PrintT(ToJson([src |-> Full, act |-> act, dst |-> Full', obs |-> ObsNext]))
